@@ -8,7 +8,11 @@ for name in sorted(os.listdir(os.path.join(VERIF, "seeded"))):
     if not os.path.isdir(d) or (only and name not in only):
         continue
     prop = name.split("-")[0]
-    p = subprocess.run(["/venv/bin/python", os.path.join(VERIF, "tools", "try_seed.py"), d, prop], capture_output=True, text=True, timeout=7200)
+    dm = json.load(open(os.path.join(VERIF, "seeded", "detect_map.json"))).get(name, {})
+    chk = dm.get("check", prop)
+    tier = dm.get("tier", "quick")
+    p = subprocess.run(["/venv/bin/python", os.path.join(VERIF, "tools", "try_seed.py"), d, chk, "--tier", tier] + dm.get("args", []),
+                       capture_output=True, text=True, timeout=7200)
     try:
         r = json.loads(p.stdout)
     except Exception:
@@ -22,9 +26,10 @@ for name in sorted(os.listdir(os.path.join(VERIF, "seeded"))):
         "needs_to_manifest": old.get("needs_to_manifest", ""),
         "confirmed": {"patch_applies": r.get("patch_applies"), "suite_still_182_passed_20_failed": r.get("suite_ok"),
                       "demo_exit_with_change": r.get("demo_exit_patched"), "demo_exit_without_change": r.get("demo_exit_unchanged")},
-        "what_was_run": "tools/try_seed.py seeded/%s %s  (scratch copy of /repo + patch -p1; test suite; demo.py on both trees; bin/check %s quick with DSIM_REPO=<copy>)" % (name, prop, prop),
-        "caught_by": {"check": prop, "tier": "quick", "exit": r.get("check_%s_exit" % prop), "seconds": r.get("check_%s_s" % prop),
-                      "first_violation": (r.get("check_%s_violations" % prop) or [""])[0][:300]},
+        "what_was_run": "tools/try_seed.py seeded/%s %s --tier %s %s (scratch copy of /repo + patch -p1; test suite; demo.py on both trees; bin/check %s %s with DSIM_REPO=<copy>)" % (name, chk, tier, " ".join(dm.get("args", [])), chk, tier),
+        "caught_by": {"check": chk, "tier": tier, "args": dm.get("args", []), "why_this_check": dm.get("why", "own property"),
+                      "exit": r.get("check_%s_exit" % chk), "seconds": r.get("check_%s_s" % chk),
+                      "first_violation": (r.get("check_%s_violations" % chk) or [""])[0][:300]},
         "history": old.get("history", ""),
     }
     json.dump(meta, open(meta_path, "w"), indent=1)
